@@ -1,4 +1,5 @@
 import RaftVerif.Proofs.FlowLeader
+import RaftVerif.Proofs.FlowAll
 /-!
 # C16 at the level of `stepLeader` (raft.go:1262-1560)
 
@@ -9,38 +10,6 @@ flow-control limits are kept.  Property theorems only (one lemma per message typ
 -/
 namespace RaftVerif
 namespace Raft
-
-/-- **every** message stepped by a leader keeps the flow-control limits: the configuration is
-untouched, `msgs` is only appended to, every appended `MsgApp` carries at most `MaxSizePerMsg` bytes
-of entries (or a single entry), and all inflight windows keep `count ≤ size` -/
-theorem stepLeader_flow (fuel : Nat) (m : Message) (r r' : Raft) (res : Option StepErr)
-    (h : (stepLeader fuel m).run r = .ok (res, r')) : Flow r r' := by
-  cases hm : m.typ with
-  | beat => exact stepLeader_beat_flow fuel m hm r r' res h
-  | checkQuorum => exact stepLeader_checkQuorum_flow fuel m hm r r' res h
-  | prop => exact stepLeader_prop_flow fuel m hm r r' res h
-  | readIndex => exact stepLeader_readIndex_flow fuel m hm r r' res h
-  | forgetLeader => exact stepLeader_forgetLeader_flow fuel m hm r r' res h
-  | appResp => exact stepLeader_appResp_flow fuel m hm r r' res h
-  | heartbeatResp => exact stepLeader_heartbeatResp_flow fuel m hm r r' res h
-  | snapStatus => exact stepLeader_snapStatus_flow fuel m hm r r' res h
-  | unreachable => exact stepLeader_unreachable_flow fuel m hm r r' res h
-  | transferLeader => exact stepLeader_transferLeader_flow fuel m hm r r' res h
-  | hup => other_tac h hm
-  | app => other_tac h hm
-  | vote => other_tac h hm
-  | voteResp => other_tac h hm
-  | snap => other_tac h hm
-  | heartbeat => other_tac h hm
-  | timeoutNow => other_tac h hm
-  | readIndexResp => other_tac h hm
-  | preVote => other_tac h hm
-  | preVoteResp => other_tac h hm
-  | storageAppend => other_tac h hm
-  | storageAppendResp => other_tac h hm
-  | storageApply => other_tac h hm
-  | storageApplyResp => other_tac h hm
-
 
 /-- unfolded form (1): size limit of every `MsgApp` a leader emits while stepping any message -/
 theorem stepLeader_msgApp_size (fuel : Nat) (m : Message) (r r' : Raft) (res : Option StepErr)
@@ -64,6 +33,47 @@ theorem stepLeader_windows (fuel : Nat) (m : Message) (r r' : Raft) (res : Optio
       (pr.inflights.maxBytes ≠ 0 → pr.inflights.q ≠ [] →
         ((pr.inflights.q.dropLast).map (·.2)).sum < pr.inflights.maxBytes) :=
   (stepLeader_flow fuel m r r' res h).2 hw
+
+/-! ### the same for `raft.Step` as a whole: any role, any message, across term changes, campaigns,
+leadership changes (`reset`), snapshot restores and configuration switches -/
+
+/-- `Step` keeps the frame (packaged form) -/
+theorem step_flow (fuel : Nat) (m : Message) (r r' : Raft) (res : Option StepErr)
+    (h : (step fuel m).run r = .ok (res, r')) : Flow r r' :=
+  step_flow_aux fuel m r r' res h
+
+/-- every `MsgApp` emitted by one `Step` — by any node in any role — carries entries of encoded size
+at most `MaxSizePerMsg`, unless it carries a single entry; `msgs` is only ever appended to -/
+theorem step_msgApp_size (fuel : Nat) (m : Message) (r r' : Raft) (res : Option StepErr)
+    (h : (step fuel m).run r = .ok (res, r')) :
+    r'.cfg = r.cfg ∧ ∃ new, r'.msgs = r.msgs ++ new ∧
+      ∀ m' ∈ new, m'.typ = .app → entsSize m'.entries ≤ r.cfg.maxMsgSize ∨ m'.entries.length ≤ 1 :=
+  (step_flow fuel m r r' res h).1
+
+/-- one `Step` preserves the window invariant of every tracked peer: at most `size` messages in
+flight, and at most `maxBytes` bytes beyond the one message that crossed the limit — also when the
+step changes term or role, resets all progress, restores a snapshot or switches configuration -/
+theorem step_windows (fuel : Nat) (m : Message) (r r' : Raft) (res : Option StepErr)
+    (h : (step fuel m).run r = .ok (res, r'))
+    (hw : ∀ id pr, r.trk.getProgress id = some pr →
+      pr.inflights.count ≤ pr.inflights.size ∧
+      (pr.inflights.maxBytes ≠ 0 → pr.inflights.q ≠ [] →
+        ((pr.inflights.q.dropLast).map (·.2)).sum < pr.inflights.maxBytes)) :
+    ∀ id pr, r'.trk.getProgress id = some pr →
+      pr.inflights.count ≤ pr.inflights.size ∧
+      (pr.inflights.maxBytes ≠ 0 → pr.inflights.q ≠ [] →
+        ((pr.inflights.q.dropLast).map (·.2)).sum < pr.inflights.maxBytes) :=
+  (step_flow fuel m r r' res h).2 hw
+
+/-- the other entry points of the `raft` struct used by `RawNode` keep the same frame: the logical
+clock `tick` (elections, heartbeats, quorum checks) and `applyConfChange` (every progress created or
+kept by the conf-change machinery has a well-formed window) -/
+theorem tick_keeps_limits (r r' : Raft) (u : Unit) (h : tick.run r = .ok (u, r')) : Flow r r' :=
+  tick_flow r r' u h
+
+theorem applyConfChange_keeps_limits (cc : ConfChangeV2) (r r' : Raft) (cs : ConfState)
+    (h : (applyConfChange cc).run r = .ok (cs, r')) : Flow r r' :=
+  applyConfChange_flow cc r r' cs h
 
 end Raft
 end RaftVerif
